@@ -50,6 +50,13 @@ pub enum Distractor {
     HpoaMinimalColumns,
     /// hp.obo has no header block: the file starts with the first stanza (release version 0000-00-00)
     NoHeaderBlock,
+    /// other tags (def, comment) and the is_obsolete / replaced_by lines stand between `id:` and `name:`
+    /// (OBO only requires `id` to come first)
+    TagsBeforeName,
+    /// the header line of the gene file is a `#` comment of this many bytes (longer than an I/O buffer)
+    GeneHeaderLong(usize),
+    /// a `#` comment line of this many bytes in the middle of phenotype.hpoa
+    HpoaCommentLong(usize),
 }
 
 #[derive(Clone, Debug, Default)]
@@ -99,6 +106,16 @@ pub fn render(f: &Facts, o: &JaxOpts) -> Rendered {
         let t = &f.terms[i];
         let mut s = String::from("[Term]\n");
         s.push_str(&format!("id: {}\n", hp(t.id)));
+        let early = o.has(&Distractor::TagsBeforeName);
+        if early {
+            s.push_str("def: \"Defined before it is named: really.\" [HPO:probinson]\ncomment: name: not this one\n");
+            if t.obsolete {
+                s.push_str("is_obsolete: true\n");
+            }
+            if let Some(r) = t.replacement {
+                s.push_str(&format!("replaced_by: {}\n", hp(r)));
+            }
+        }
         s.push_str(&format!("name: {}\n", t.name));
         if o.has(&Distractor::ExtraTags) {
             s.push_str(&format!("alt_id: {}\n", hp(9_000_000 + t.id % 1000)));
@@ -118,12 +135,16 @@ pub fn render(f: &Facts, o: &JaxOpts) -> Rendered {
             }
         }
         if t.obsolete {
-            s.push_str("is_obsolete: true\n");
+            if !early {
+                s.push_str("is_obsolete: true\n");
+            }
         } else if o.has(&Distractor::ExplicitNotObsolete) {
             s.push_str("is_obsolete: false\n");
         }
         if let Some(r) = t.replacement {
-            s.push_str(&format!("replaced_by: {}\n", hp(r)));
+            if !early {
+                s.push_str(&format!("replaced_by: {}\n", hp(r)));
+            }
         }
         if o.has(&Distractor::ExtraTags) {
             s.push_str("property_value: http://purl.org/dc/terms/contributor https://orcid.org/0000-0001-5889-4463\n");
@@ -221,6 +242,15 @@ pub fn render(f: &Facts, o: &JaxOpts) -> Rendered {
     if o.has(&Distractor::HpoaCommentMiddle) {
         rows.insert(rows.len() / 2, "#OMIM:600171\tGonadal agenesis\t\tHP:0000001\tOMIM:600171\tTAS\tP\tHPO:skoehler[2014-11-27]\n".to_string());
     }
+    for d in &o.distractors {
+        if let Distractor::HpoaCommentLong(len) = d {
+            let mut line = String::from("#");
+            line.push_str(&"OMIM:1\tx\t\tHP:0000001\t".repeat(len / 21 + 1));
+            line.truncate(*len);
+            line.push('\n');
+            rows.insert(rows.len() / 2, line);
+        }
+    }
     for r in rows {
         hpoa.push_str(&r);
     }
@@ -233,7 +263,18 @@ pub fn render(f: &Facts, o: &JaxOpts) -> Rendered {
     let tname = |id: u32| -> String { f.terms.iter().find(|t| t.id == id).map(|t| t.name.clone()).unwrap_or_default() };
     let mut g2p = String::new();
     let mut p2g = String::new();
+    let long_header = o.distractors.iter().find_map(|d| if let Distractor::GeneHeaderLong(v) = d { Some(*v) } else { None });
     match header_variant {
+        _ if long_header.is_some() => {
+            // a `#` comment header of exactly `len` bytes (line feed included), made of text that would parse as rows
+            let len = long_header.unwrap();
+            let mut line = String::from("#");
+            line.push_str(&"77\tXX\tHP:0000001\tAll\t".repeat(len / 20 + 1));
+            line.truncate(len - 1);
+            line.push('\n');
+            g2p.push_str(&line);
+            p2g.push_str(&line);
+        }
         1 => {
             g2p.push_str("#Format: entrez-gene-id<tab>entrez-gene-symbol<tab>HPO-Term-ID<tab>HPO-Term-Name<tab>Frequency-Raw<tab>Frequency-HPO<tab>Additional Info from G-D source<tab>G-D source<tab>disease-ID for link\n");
             p2g.push_str("#Format: HPO-id<tab>HPO label<tab>entrez-gene-id<tab>entrez-gene-symbol<tab>Additional Info from G-D source<tab>G-D source<tab>disease-ID for link\n");
